@@ -181,6 +181,7 @@ def history_task(task):
             hist = edits.History(rng, data, allow_outliers=True, initial_forest=init)
             frozen = []  # (tree, digest) alias guard ring
             shadows = []  # [tree, how, steps_left]
+            parked = []  # (original, restored copy left untouched) re-checked after later restorations
             case = {"seed": task["seed"], "shard": task["shard"], "history": h, "n": n, "D": D, "G": G, "kind": kind}
             try:
                 for s in range(task["steps"] if not big else task.get("big_steps", 20)):
@@ -260,6 +261,13 @@ def history_task(task):
                                 part.count("serial_roundtrips_outlier_only")
                             monitors.tree_wellformed(r)
                             shadows.append([r, how, 12, True])
+                            # restored trees are values of their own: restoring other trees later (or editing those)
+                            # must not change one that was restored earlier and left alone
+                            for po, pr in parked:
+                                trees_equivalent(po, pr, tds)
+                                part.count("serial_parked_rechecks")
+                            parked.append((new, restore(new, how, tmpdir)))
+                            parked = parked[-3:]
                             # the dictionary form is a value: editing a tree restored from it (as the subtree sampler
                             # edits the tree it is handed) or the original must not change it
                             r2, d2 = restore(new, "dict", tmpdir, keep_dict=True)
